@@ -137,6 +137,19 @@ def check_read_events(w, recs, buf):
             pbuf.value = "\\Device\\elsewhere"
 
         w.ReadDirectoryChangesW = failed
+
+        def same_path(handle, pbuf, size, flags):
+            pbuf.value = "C:\\w"
+
+        w.GetFinalPathNameByHandleW = same_path
+        try:
+            got = real_read_events(1, "C:\\w", recursive=True)
+        except OSError:
+            got = "raised"
+        except Exception as ex:  # noqa: BLE001
+            got = repr(ex)
+        if got != "raised":
+            raise Violation(f"winapi.read_events(): ReadDirectoryChangesW failed while the watched directory is still there - expected the OSError, got {got!r}", "fni-read-events")
         w.GetFinalPathNameByHandleW = final_path
         got = read_events(1, "C:\\w", recursive=True)
         if not (isinstance(got, list) and len(got) == 1 and got[0].is_removed_self):
